@@ -5,6 +5,7 @@
 mod errclass;
 mod exec;
 mod lex;
+mod lists;
 mod mnemonic;
 mod numeric;
 mod queue;
@@ -23,6 +24,7 @@ fn main() {
     let code = match cmd {
         "errclass-rows" => errclass::rows(rest),
         "exec-replay" => exec::replay(rest),
+        "lists-replay" => lists::replay(rest),
         "lex-replay" => lex::replay(rest),
         "mnem-replay" => mnemonic::replay(rest),
         "mnem-rows" => mnemonic::rows(rest),
